@@ -189,6 +189,24 @@ def table_worker(task):
                 except Exception as ex:  # noqa
                     bad.append(("running-total-raised", name, u,
                                 type(ex).__name__))
+        # ordering against anything that is not a quantity of this type is
+        # refused (also against a plain number, on either side)
+        x0 = q(3.0, ulist[0])
+        for other in (5.0, 2, True, math.inf, "3", None):
+            for nm, op in (("<", operator.lt), ("<=", operator.le),
+                           (">", operator.gt), (">=", operator.ge)):
+                for left in (True, False):
+                    n += 1
+                    try:
+                        r = op(x0, other) if left else op(other, x0)
+                        bad.append(("ordering-with-a-non-quantity-accepted",
+                                    name, nm, repr(other), left, r))
+                    except TypeError:
+                        pass
+                    except Exception as ex:  # noqa
+                        bad.append(("ordering-with-a-non-quantity-wrong-"
+                                    "exception", name, nm, repr(other),
+                                    type(ex).__name__))
         try:
             q(1.0, "no-such-unit")
             bad.append(("unknown-unit-accepted", name))
